@@ -20,10 +20,10 @@ pub fn run(r: &Req) -> Option<String> {
     let mp = r.opt_usize("mp");
     let f = r.f.as_str();
     if crate::rollrun::ROLL1_VALID.contains(&f) {
-        return Some(roll1_dispatch!(r, with_xs_all, with_xs_f, |view, OC, U, out| roll1_valid_call!(f, view, OC, U, out, w, mp, r).unwrap()));
+        return Some(roll1_dispatch!(r, with_xs_all, with_xs_f, yes, |view, OC, U, out| roll1_valid_call!(f, view, OC, U, out, w, mp, r).unwrap()));
     }
     if crate::rollrun::ROLL1_PLAIN.contains(&f) {
-        return Some(roll1_dispatch!(r, with_xs_num, with_xs_f64, |view, OC, U, out| roll1_plain_call!(f, view, OC, U, out, w, mp, r).unwrap()));
+        return Some(roll1_dispatch!(r, with_xs_num, with_xs_f64, no, |view, OC, U, out| roll1_plain_call!(f, view, OC, U, out, w, mp, r).unwrap()));
     }
     match r.f.as_str() {
         "ts_vfdiff" => {
